@@ -1,4 +1,5 @@
 import Cjet.Lemmas.Authfile
+import Cjet.Props.CjsonTree
 /-!
 # C20 — password changes are authorised, effective and crash-atomic on disk
 
@@ -594,5 +595,10 @@ theorem short_writes_complete (fs0 : Fs) (data : Bytes) (outs : List Outcome)
 example : (writeUserData exFs [5, 6, 7, 8] [.ok, .ok, .short 1, .short 0, .short 2]).2 = true ∧
     (lastFs exFs (writeUserData exFs [5, 6, 7, 8] [.ok, .ok, .short 1, .short 0, .short 2]).1).data = [5, 6, 7, 8] := by
   decide
+
+theorem json_replace_checked_failure_changes_nothing : type_of% @Cjet.Props.CjsonTree.replace_checked_failure_changes_nothing := @Cjet.Props.CjsonTree.replace_checked_failure_changes_nothing
+theorem json_replace_unchecked_failure_strips_the_name : type_of% @Cjet.Props.CjsonTree.replace_unchecked_failure_strips_the_name := @Cjet.Props.CjsonTree.replace_unchecked_failure_strips_the_name
+theorem json_replace_unchecked_failure_loses_the_member : type_of% @Cjet.Props.CjsonTree.replace_unchecked_failure_loses_the_member := @Cjet.Props.CjsonTree.replace_unchecked_failure_loses_the_member
+theorem json_replace_success_in_place : type_of% @Cjet.Props.CjsonTree.replace_success_in_place := @Cjet.Props.CjsonTree.replace_success_in_place
 
 end Cjet.Props.C20
